@@ -16,3 +16,4 @@ pub mod multitopic;
 pub mod peerloss;
 pub mod rrslow;
 pub mod rereg;
+pub mod hostile_server;
